@@ -603,8 +603,14 @@ std::string stacks_dump(int frames, size_t max_bytes) {
     if (VRT_TSAN) return "(no gdb stacks in the tsan variant)";
     char cmd[600];
     std::string script = __FILE__; { size_t sl = script.rfind('/'); script = (sl == std::string::npos ? std::string(".") : script.substr(0, sl)) + "/gdb_arena.py"; }
-    snprintf(cmd, sizeof cmd, "timeout 60 gdb -p %d -batch -nx -ex 'set print frame-arguments none' -ex 'thread apply all bt %d' -ex 'source %s' 2>/dev/null", (int)getpid(), frames, script.c_str());
-    FILE* f = popen(cmd, "r"); if (!f) return "(gdb not available)";
+    // gdb stops every thread of this process, also this one: its output must go to a file, not to a pipe this thread would have to drain
+    // (with more than a pipe buffer of back-traces gdb blocked in write() for ever, the process stayed stopped and the job ran into the
+    // driver's time limit)
+    char tmpn[96]; snprintf(tmpn, sizeof tmpn, "/tmp/vrt-gdb-%d-%d.txt", (int)getpid(), gettid_());
+    snprintf(cmd, sizeof cmd, "timeout -k 5 90 gdb -p %d -batch -nx -ex 'set print frame-arguments none' -ex 'thread apply all bt %d' -ex 'source %s' > %s 2>/dev/null < /dev/null", (int)getpid(), frames, script.c_str(), tmpn);
+    int src = system(cmd); (void)src;
+    FILE* f = fopen(tmpn, "r"); if (!f) return "(gdb not available)";
+    unlink(tmpn);
     // one block of frames per thread; threads with identical back-traces are grouped, rare traces first
     std::vector<std::pair<std::string, std::string>> blocks;   // (thread header, frames)
     std::string line, arenas; char buf[1024]; bool in_arenas = false;
@@ -620,7 +626,7 @@ std::string stacks_dump(int frames, size_t max_bytes) {
             blocks.back().second += "  " + line;
         }
     }
-    pclose(f);
+    fclose(f);
     std::map<std::string, std::vector<std::string>> groups;
     for (auto& b2 : blocks) groups[b2.second].push_back(b2.first);
     std::vector<std::pair<size_t, std::string>> order;
